@@ -62,6 +62,8 @@ class Conserve(Monitor):
         col.label(f"form:{rt.form}")
         col.label(f"same:{same}")
         col.label(f"fam:{rt.fam}")
+        if any(len({c for c, _ in ws}) < len(ws) for ws in (rt.src, rt.dst)):
+            col.label('list-names-a-well-twice')
         if not out.ok:
             col.label('refused')
             return
@@ -131,7 +133,9 @@ def strip_instr_plate(v):
 
 
 PROFILE = {'weights': {'transfer': 6, 'container': 2, 'plate': 1, 'remove': 1, 'fill_to': 1, 'slice': 1},
-           'q_modes': ['frac'] * 8 + ['whole', 'over', 'zero'], 'self_transfer': False}
+           'q_modes': ['frac'] * 8 + ['whole', 'over', 'zero'], 'self_transfer': False,
+           # lists may name a well twice: whatever that means well by well, nothing may be created or lost
+           'dup_wells': True}
 
 
 def run(col):
